@@ -57,6 +57,7 @@ type MapObj struct {
 	kw, vw  int
 	cands   []*Term
 	id      int
+	global  string // reachable from this package-level variable
 }
 
 type MapV struct{ m *MapObj } // m == nil: nil map
